@@ -101,3 +101,9 @@ func VerifExecuteFrame(t FTransport, frame []byte) error {
 
 // VerifGetOpID exposes getOpID.
 func VerifGetOpID(ctx FContext) (uint64, error) { return getOpID(ctx) }
+
+// VerifBaseExecuteFrame runs fBaseTransport.ExecuteFrame (the NATS inbox path:
+// frame still carries its 4-byte size prefix) on a fresh base transport.
+func VerifBaseExecuteFrame(frame []byte) error {
+	return newFBaseTransport(0).ExecuteFrame(frame)
+}
